@@ -263,6 +263,10 @@ def run(chk):
     for i in range(n):
         gen = pylite.Gen(rng)
         fn = gen.function(generator=rng.random() < 0.35, size=rng.randrange(4, 14))
+        if rng.random() < 0.2:
+            # an exception that is not an Exception (the kind KeyboardInterrupt / SystemExit are) may end the activation
+            fn["body"].insert(rng.randrange(0, len(fn["body"]) + 1),
+                              ("if", "C(%d)" % gen.nk(), [("expr", "RQ(%d)" % gen.nk())], []))
         loops = add_loop_markers(fn, gen)
         src = pylite.render(fn)
         args, script, gscript = progrun.gen_inputs(rng, fn)
